@@ -452,6 +452,9 @@ func rootOf(v ssa.Value) ssa.Value {
 		case *ssa.Field:
 			v = x.X
 			continue
+		case *ssa.IndexAddr:
+			v = x.X
+			continue
 		case *ssa.ChangeType:
 			v = x.X
 			continue
